@@ -745,5 +745,9 @@ func TestC03(t *testing.T) {
 			cases = append(cases, run.Case{ID: fmt.Sprintf("13/rogue-client/policy=%s/ack-instead-of-final-flight/extra%d", pc.n, extra), Run: func(t *testing.T) run.Outcome { return c03RogueACK(t, p, pc.p, pc.n, extra, env.Seed+1) }})
 		}
 	}
-	run.Main(t, "C03", cases, map[string]any{"scenarios": len(scs), "masks": len(masks), "max_faults": k, "N_per_direction": 5})
+	for _, cfg := range nocredConfigs() {
+		cfg := cfg
+		cases = append(cases, run.Case{ID: "12/rogue-server/no-credential/" + cfg.name, Run: func(t *testing.T) run.Outcome { return c03NoCred(t, p, cfg, env.Seed+1) }})
+	}
+	run.Main(t, "C03", cases, map[string]any{"scenarios": len(scs), "masks": len(masks), "max_faults": k, "N_per_direction": 5, "credential_less_server_configs": len(nocredConfigs())})
 }
